@@ -19,9 +19,15 @@ def main():
     mod = importlib.import_module("p_" + pid.lower())
     chk = core.Check(pid, args.tier)
     if args.replay:
+        # replay = re-run the check on the current tree and report whether the recorded failure class recurs
         rep = json.load(open(args.replay))
-        rc = mod.replay(chk, rep)
-        sys.exit(rc)
+        print("replaying %s: %s" % (args.replay, rep.get("what") or rep.get("no_longer_checks")))
+        print("recorded input:", json.dumps(rep.get("input"), default=str))
+        mod.run(chk)
+        keys = {v["key"] for v in chk.violations}
+        again = rep.get("key") in keys if rep.get("key") else bool(chk.obligation_failures or chk.tie_breaks)
+        print("REPRODUCED" if again else "not reproduced on the current tree")
+        sys.exit(1 if again else 0)
     try:
         mod.run(chk)
     except Exception:
